@@ -266,6 +266,7 @@ def run(chk):
                f"valid() computes {panics.short_desc(d)}: a session created with lifetime 0 must be born expired")
     db_lookup(chk, prog)
     whole_password_and_expiry(chk, prog)
+    lifetime_fields(chk, prog)
     from . import c02
     c02.cookies(chk, prog, "A")
 
@@ -596,3 +597,49 @@ def db_lookup(chk, prog):
                 others = [x for x in calls if not core.re.search(r"PartialEq(<[^>]*>)?(>)?::ne$|AsRef::as_ref$|Deref::deref$", x)]
                 chk.ob("R8.db_lookup", base + "remove_user", "remove_user keeps exactly the entries whose uid != the given uid", len(ne) == 1 and not others,
                        f"retain predicate calls {[core.short(x) for x in calls]}", where=f"{cb.file}:{cb.line}")
+
+
+def lifetime_fields(chk, prog):
+    """R7.lifetime_field: AuthConfig has two lifetimes; the one a builder method stores and the one an operation reads must be the one it is
+    named after: `with_default_lifetime` -> `default_lifetime` -> create_session, `with_default_refresh_lifetime` -> `default_refresh_lifetime`
+    -> refresh_session.  A refreshed token otherwise lives for the login lifetime (or the reverse)."""
+    cfg = prog.structs.get("humphrey_auth::config::AuthConfig", {}).get("fields", [])
+    idx = {x["name"]: i for i, x in enumerate(cfg)}
+    chk.floor("AuthConfig lifetime fields", sum(1 for k in ("default_lifetime", "default_refresh_lifetime") if k in idx), 2)
+    ap = prog.structs.get("humphrey_auth::AuthProvider", {}).get("fields", [])
+    ci = next((i for i, x in enumerate(ap) if x["ty"].endswith("config::AuthConfig")), None)
+    n = 0
+    for setter, field in (("with_default_lifetime", "default_lifetime"), ("with_default_refresh_lifetime", "default_refresh_lifetime")):
+        b = prog.bodies.get("humphrey_auth::config::AuthConfig::" + setter)
+        if not b or field not in idx:
+            continue
+        written = []
+        for bi, blk in enumerate(b.blocks):
+            for st in blk["stmts"]:
+                if "pl" in st and "rv" in st:
+                    fs = [e[1] for e in st["pl"]["p"] if e[0] == "f"]
+                    if fs and "u64" in str(st["pl"]["p"][-1]):
+                        d = describe(prog, b, st["rv"]["o"]) if st["rv"]["k"] == "use" else core.describe_rv(prog, b, st["rv"])
+                        written.append((fs[-1], d))
+                    rv = st["rv"]
+                    if rv.get("k") == "agg" and rv.get("adt", "").endswith("config::AuthConfig"):
+                        for fname, op in zip(rv.get("fields", []), rv["ops"]):
+                            d = describe(prog, b, op)
+                            if desc_contains(d, lambda y: y[0] == "param" and y[2] == "lifetime"):
+                                written.append((idx.get(fname), d))
+        n += 1
+        ok = bool(written) and all(f == idx[field] for f, d in written if desc_contains(d, lambda y: y[0] == "param" and y[2] == "lifetime")) and \
+            any(f == idx[field] and desc_contains(d, lambda y: y[0] == "param" and y[2] == "lifetime") for f, d in written)
+        chk.ob("R7.lifetime_field", b.path, f"{setter} stores its argument in AuthConfig.{field}", ok, f"fields written: {[(f, panics.short_desc(d)) for f, d in written]}")
+    for meth, rx, ai, field in (("create_session", r"Session::create_with_lifetime$", 0, "default_lifetime"), ("refresh_session", r"session::Session::refresh$", 1, "default_refresh_lifetime")):
+        b = prog.bodies.get(AP + meth)
+        if not b or field not in idx or ci is None:
+            continue
+        for blk, t in b.calls_to(rx):
+            n += 1
+            d = panics._strip(describe(prog, b, t["args"][ai]))
+            ok = isinstance(d, tuple) and d[0] == "field" and d[2] == idx[field] and isinstance(d[1], tuple) and d[1][0] == "field" and d[1][2] == ci and \
+                isinstance(d[1][1], tuple) and d[1][1][0] == "param"
+            chk.ob("R7.lifetime_field", b.path, f"{meth}: the lifetime is self.config.{field}", ok,
+                   f"lifetime = {panics.short_desc(d)}: the token then expires after the other configured lifetime", where=b.where(blk))
+    chk.floor("lifetime field writers / readers", n, 4)
